@@ -1008,6 +1008,9 @@ def check(ctx: Ctx):
     check_volume_2d(ctx)
     check_volume_3d(ctx)
     check_pairs(ctx)
+    from ..rules import render as _render
+
+    _render.check_real_harmonics(ctx)
     check_triangulation(ctx)
     check_shape(ctx)
     ctx.expect("SHAPE", 8)
@@ -1023,6 +1026,7 @@ def check(ctx: Ctx):
     ctx.expect("FORMULA", 3)
     ctx.expect("INTEGRAL", 2)
     ctx.expect("PAIRS", 2)
+    ctx.expect("HARMONIC", 6)
     ctx.trust("first-order mean curvature of r=R(1+εB): 2D κ = 1/R − (δr+δr'')/R², 3D H = 1/R − (2δr + Δ_Ω δr)/(2R²) with Δ_Ω Y_l = −l(l+1)Y_l",
               "harmonics sin(nφ), cos(nφ) orthogonal on [0,2π); scipy.integrate.dblquad(func(y,x), a, b, gfun, hfun) argument order",
               "scipy.special.sph_harm_y / spherical_index_lm implement the documented real harmonics")
